@@ -344,7 +344,7 @@ def run(ctx):
                 pert = {"extra": "shape", "v": v}
             elif extra == "area_extent_by_ul":
                 v = list(d["upper_left_extent"])
-                v[comp] += sgn * mag * max(abs(v[comp]), abs(d["radius"][comp]))
+                v[comp] += sgn * mag * abs(d["radius"][comp])       # the code compares radii here: perturb relative to the radius
                 args["upper_left_extent"] = {"v": v}
                 # centre + radius + upper-left: the code derives the radius from (upper-left, centre) and validates the given one
                 dv = abs(v[comp] - d["upper_left_extent"][comp])
